@@ -687,16 +687,31 @@ func (g *lgen) longSource() Source {
 		hi = 14
 	}
 	k := g.r.Range(12, hi)
+	// mostly distinct accounts (a random selection of the pool, completed by random picks when the
+	// pool is smaller than the list), then a few accounts of the list once more at the end
+	pool := append([]string(nil), g.cfg.Accounts...)
+	g.r.Shuffle(len(pool), func(i, j int) { pool[i], pool[j] = pool[j], pool[i] })
 	s := &SrcInorder{}
-	for i := 0; i < k; i++ {
-		name := g.account()
+	var listed []string
+	add := func(name string, mayCap bool) {
 		g.drawn = append(g.drawn, name)
+		listed = append(listed, name)
 		var e Source = &SrcAccount{E: g.accountExpr(name)}
-		if g.r.Chance(1, 4) {
+		if mayCap && g.r.Chance(1, 4) {
 			cap, _ := g.monetaryExpr(g.asset, big.NewInt(int64(g.r.Intn(12))), false)
 			e = &SrcCapped{Cap: cap, From: e}
 		}
 		s.Srcs = append(s.Srcs, e)
+	}
+	for i := 0; i < k; i++ {
+		if i < len(pool) && !g.pct(g.cfg.PRepeat) {
+			add(pool[i], true)
+		} else {
+			add(g.account(), true)
+		}
+	}
+	for n := g.r.Intn(4); n > 0; n-- {
+		add(listed[g.r.Intn(len(listed))], g.r.Bool())
 	}
 	g.c.Tags["long-source"] = true
 	return s
